@@ -7,6 +7,7 @@ import (
 	"fmt"
 	"math"
 	"slices"
+	"strconv"
 	"strings"
 	"sync"
 	"testing"
@@ -779,6 +780,45 @@ var largeProp = vp.Register(vp.Prop[LargeCase]{
 })
 
 func TestSetLarge(t *testing.T) { vp.Run(t, largeProp) }
+
+// TestRingManyPushes (thorough tier, 32-bit variant only): more pushes into
+// one buffer than a uint can count there (2^32 + 5), then the usual
+// observations.  "The last min(k, n) values pushed" has no upper bound on k.
+func TestRingManyPushes(t *testing.T) {
+	shard, _ := vp.Shard()
+	if strconv.IntSize != 32 || !vp.Thorough() || shard != 0 {
+		t.Skip("needs the 32-bit build of the thorough tier (on 64-bit platforms 2^64 pushes are out of reach)")
+	}
+	for _, size := range []uint{3, 4} {
+		rb := container.NewRingBuffer[uint64](size)
+		total := uint64(1)<<32 + 9
+		for i := uint64(0); i < total; i++ {
+			rb.Push(i)
+			if i+1 < 1<<32-3 {
+				continue
+			}
+			// Observe after every push around the 2^32 boundary.
+			pushed := i + 1
+			vp.Eval("c11.ring-many")
+			var fwd, rev []uint64
+			rb.Range(func(v uint64) bool { fwd = append(fwd, v); return true })
+			rb.ReverseRange(func(v uint64) bool { rev = append(rev, v); return true })
+			var want []uint64
+			for j := pushed - uint64(size); j < pushed; j++ {
+				want = append(want, j)
+			}
+			wantRev := slices.Clone(want)
+			slices.Reverse(wantRev)
+			if rb.Len() != size || rb.Current() != want[0] || !slices.Equal(fwd, want) || !slices.Equal(rev, wantRev) {
+				vp.Fail(t, "c11.ring-many", map[string]any{"cap": size, "pushes": pushed},
+					fmt.Errorf("capacity %d after %d pushes: Len() = %d, Current() = %d, Range = %v, ReverseRange = %v; want the last %d values pushed, %v", size, pushed, rb.Len(), rb.Current(), fwd, rev, size, want))
+				return
+			}
+		}
+	}
+	vp.Class("ring-many:2^32+5-pushes-on-a-32-bit-build")
+	vp.NonTrivialN("c11.ring-many", 2)
+}
 
 // checkReaders: a container that is only read may be read from several
 // goroutines at once (Has, Len, Values, Range, Equal, String / Range,
